@@ -75,8 +75,8 @@ func realToID(name string) string {
 	case "application/json":
 		return "tj"
 	}
-	if strings.HasPrefix(name, "ext/") {
-		return strings.TrimPrefix(name, "ext/")
+	if strings.HasPrefix(name, extPrefix) {
+		return strings.TrimPrefix(name, extPrefix)
 	}
 	return "?" + name
 }
@@ -251,13 +251,13 @@ func conctraceMain(args []string) int {
 						owner := &aliasOwner{backing: backing, n: len(alNames)}
 						lg.add(concEvent{"ev": "ext.built", "g": g, "e": e, "p": p, "acc": acc, "al": alNames})
 						if p == "root" && rng.Intn(2) == 0 {
-							mimetype.Extend(extDetector(acc), "ext/"+e, "."+e, backing[:len(alNames)]...)
+							mimetype.Extend(extDetector(acc), extPrefix+e, "."+e, backing[:len(alNames)]...)
 						} else {
-							parent.Extend(extDetector(acc), "ext/"+e, "."+e, backing[:len(alNames)]...)
+							parent.Extend(extDetector(acc), extPrefix+e, "."+e, backing[:len(alNames)]...)
 						}
 						var n *mimetype.MIME
 						if *notrace {
-							n = mimetype.Lookup("ext/" + e)
+							n = mimetype.Lookup(extPrefix + e)
 						} else {
 							lg.mu.Lock()
 							n = lg.lastPub[g]
